@@ -15,7 +15,8 @@ T2 == Tuples(QN, 2)
 Others(t) == Q \ RangeOf(t)
 PShapes == {Sh(o, {}, t) : o \in {"rx", "ry", "rz", "u3"}, t \in T1} \cup {Sh("rzz", {}, t) : t \in T2}
            \cup UNION {{Sh(o, c, t) : o \in {"crx", "cry", "crz", "cu3"}, c \in (SUBSET Others(t)) \ {{}}} : t \in T1}
-FShapes == {Sh(o, {}, t) : o \in {"H", "S", "T", "X"}, t \in T1} \cup {Sh(o, {t[1]}, <<t[2]>>) : o \in {"cnot", "cz"}, t \in T2}
+           \cup (IF QN % 2 = 0 THEN {Sh("foracle", {}, [i \in 1..QN |-> i])} ELSE {})           \* custom parametrised gate on the whole register
+FShapes == (IF QN % 2 = 0 THEN {Sh("oracle", {}, [i \in 1..QN |-> i])} ELSE {}) \cup {Sh(o, {}, t) : o \in {"H", "S", "T", "X"}, t \in T1} \cup {Sh(o, {t[1]}, <<t[2]>>) : o \in {"cnot", "cz"}, t \in T2}
            \* generic-matrix gates: unitary matrices only - the reverse sweep un-computes the state with U^T, which is the
            \* documented contract of single/double_qubit_gate ("the unitary matrix of the gate")
            \cup {[Sh("single", {}, t) EXCEPT !.mat = "A2"] : t \in T1} \cup {[Sh("double", {}, t) EXCEPT !.mat = "B1"] : t \in T2}
@@ -30,7 +31,7 @@ Step(newgates) == gates' = newgates /\ \E n \in {NumQ(newgates)} : \E o \in {MkO
 \* a parametrised gate with a fresh cell (own object, or a new placeholder entry when the kind supports placeholders)
 DoFresh == \E s \in {RandomElement(PShapes)} : \E x \in {RandomElement(0..1023)} : \E r \in {[k |-> x % 8, p |-> (x \div 8) % 8, l |-> (x \div 64) % 8]} : \E h \in {x >= 512} :
              /\ ncell' = ncell + 1
-             /\ Step(Append(gates, [s EXCEPT !.par = SubSeq(<<r.k, r.p, r.l>>, 1, NPar(s.op)), !.cell = ncell + 1, !.holder = h /\ s.ctrl = {}]))
+             /\ Step(Append(gates, [s EXCEPT !.par = SubSeq(<<r.k, r.p, r.l>>, 1, NPar(s.op)), !.cell = ncell + 1, !.holder = h /\ s.ctrl = {} /\ s.op # "foracle"]))
 \* share the parameter cell of an earlier gate: same object re-appended (own cells) / same placeholder entry (holder cells)
 Sharable == {i \in 1..Len(gates) : IsParam(gates[i].op)}
 DoShare == Sharable # {} /\ \E i \in {RandomElement(Sharable)} :
